@@ -179,6 +179,26 @@ def run(prog, rep, tier):
         rep.ob('R12.2', bool(okw), 'R12.2|%s|sink-is-export-of-looked-up-name' % body.nkey, 'routed copy writes to export.get_mut(name looked up by id)' if okw else
                'routed copy does not write to the writer registered for the looked-up name', body.loc(c.idx))
 
+    # R12.6 what is handed to a chosen file's writer is handed completely: io::copy / write_all, or a raw write whose count drives the loop
+    from .c13 import ok_payload_locals
+    cnt_w = 0
+    for wb in body.calls():
+        t = wb.term
+        if t.ctrait != 'std::io::Write' or t.cmethod not in ('write', 'write_vectored'):
+            continue
+        cnt_w += 1
+        pay = ok_payload_locals(body, wb)
+        used = False
+        for bl2 in body.blocks:
+            for st2 in bl2.stmts:
+                if st2.kind == 'assign' and st2.rv.r == 'binop' and any(op.place is not None and op.place[0] in pay for op in st2.rv.ops):
+                    used = True
+        rep.ob('R12.6', used, 'R12.6|%s|raw-write#%d|count-used' % (body.nkey, cnt_w - 1),
+               'the count accepted by the destination drives the transfer' if used else
+               'linear_extract hands bytes to a destination with Write::write and drops the returned count: when the destination accepts only part of the buffer the rest '
+               'is lost although Ok(()) is returned', body.loc(wb.idx))
+    if cnt_w == 0:
+        rep.ob('R12.6', True, 'R12.6|%s|no-raw-write' % body.nkey, 'no raw Write::write in linear_extract: transfers go through io::copy / write_all', body.loc())
     # R12.3 exact consumption (flag-sensitive must-pass-through)
     if fc is not None and copies:
         r = reachable_ps(body, fc, removed_blocks=[c.idx for c in copies])
